@@ -1,4 +1,4 @@
-(* Entries for Eval.v: the query evaluator.
+(* Entries for Eval.v joined with Keywords.v (EvalKw.v): the query evaluator incl. keyword segments.
    (eval MODE s<path> DOC LIT RE NSTR)   MODE = req | opt | exists
      LIT / RE as in drv_search.ml;  NSTR = ((i<oid> s<str(container)>) ...)
    Output: (ok (ITEM ...)) | (ok true|false) for exists | (raise ..) | (mutates) | (outoffuel)
@@ -64,13 +64,34 @@ let psegs_sexp (txt : char list) : t =
   | Raise (YPE _) -> L [A "raise"; A "ype"]
   | r -> outcome_sexp (fun l -> L (List.map seg_sexp l)) r
 
+(* In a query whose path contains a name() segment, a scalar node whose value is its own parentref is printed
+   by value: the result of name() is the key or
+   index object itself (a dict key, an int made by enumerate(), the str of the path segment), whose CPython
+   identity is an accident (interned small ints and 1-char strings may or may not coincide with scalars of
+   the document).  harness/evalcommon.py item_sexp applies the same rule. *)
+let name_mode = ref false     (* the path of the current request contains "name(" *)
+let contains_sub (s : string) (sub : string) : bool =
+  let n = String.length s and m = String.length sub in
+  let rec go i = i + m <= n && (String.sub s i m = sub || go (i + 1)) in go 0
+let name_like (nd : rval) (rf : pyval option) : bool =
+  !name_mode &&
+  match nd with
+  | RNode (NLeaf (_, v)) ->
+    v = PNone   (* name() of the root is the None singleton: its identity is that of every null of the document *)
+    || (match rf with None -> false | Some r -> to_string (sexp_of_pyval r) = to_string (sexp_of_pyval v))
+  | _ -> false
+
 let rec item_sexp (v : rval) : t =
   match v with
   | RNode n -> L [A "n"; oid_atom n]
   | RList l -> L (A "l" :: List.map item_sexp l)
   | RCoords (nd, par, rf, path, anc) ->
-    L [A "nc"; item_sexp nd; parent_sexp par; ref_sexp rf; s path; psegs_sexp path;
+    L [A "nc"; node_or_name_sexp nd rf; parent_sexp par; ref_sexp rf; s path; psegs_sexp path;
        L (List.map (fun (p, r) -> L [parent_sexp (Some p); sexp_of_pyval r]) anc)]
+
+and node_or_name_sexp (nd : rval) (rf : pyval option) : t =
+  if name_like nd rf then (match nd with RNode (NLeaf (_, v)) -> L [A "v"; sexp_of_pyval v] | _ -> item_sexp nd)
+  else item_sexp nd
 
 let nstr_of_table (tbl : t) : node -> char list =
   let h = Hashtbl.create 16 in
@@ -83,7 +104,7 @@ let nstr_of_table (tbl : t) : node -> char list =
     | None -> failwith "nstr-miss"
 
 let vstr (_ : rval list) : char list = failwith "vstr-needed"
-let kw_handler _ _ _ _ _ = failwith "keyword-segment"
+(* keyword segments: Keywords.v joined through EvalKw.v *)
 (* creation changes the document: the model stops with Mut *)
 let creator _ _ (v : rval) _ = ([], Mut (N0, PNone))
 
@@ -103,6 +124,8 @@ let handle (cmd : string) (args : t list) : t option =
     let nstr = nstr_of_table nt in
     let d = node_of_sexp doc in
     let txt = str_atom path in
+    let kw_handler = ek_kw_handler lit re nstr vstr in
+    name_mode := contains_sub (implode txt) "name(";
     (match prepare (nat_of_int (List.length txt + 2)) txt with
      | OutOfFuel -> Some (L [A "outoffuel"; A "prepare"])
      | Raise e -> Some (L [A "raise"; exn_sexp e])
@@ -112,4 +135,17 @@ let handle (cmd : string) (args : t list) : t option =
         | "opt" -> Some (gen_sexp (get_optional lit re nstr vstr kw_handler creator p d))
         | "exists" -> Some (gen_sexp_with (function [b] -> bs b | _ -> A "?") (exists_ lit re nstr vstr kw_handler creator p d))
         | _ -> failwith ("bad mode " ^ mode)))
+  (* model-only: which fragment of Spec/SpecC15kw.v the path is in on this document *)
+  | "frag", [path; doc; lt; rt; nt] ->
+    let lit = lit_of_table (lit_table_of_sexp lt) in
+    let re = re_of_table (re_table_of_sexp rt) in
+    let nstr = nstr_of_table nt in
+    let d = node_of_sexp doc in
+    let txt = str_atom path in
+    (match prepare (nat_of_int (List.length txt + 2)) txt with
+     | Ok p ->
+       if in_fragment_kw p then Some (L [A "frag"; A "kw"])
+       else if kc_fragment lit re nstr vstr p d then Some (L [A "frag"; A "guard"])
+       else Some (L [A "frag"; A "out"])
+     | _ -> Some (L [A "frag"; A "unprepared"]))
   | _ -> None
